@@ -18,6 +18,18 @@ theorem current_wf : WF T := by
 theorem current_prefixes_declared : PrefixesDeclared T := by
   unfold PrefixesDeclared; decide +kernel
 
+/-- the table check of the tree-level round-trip theorem, evaluated by the kernel on the table
+extracted from the current tree -/
+theorem current_rt_table : RtTable T := by
+  unfold RtTable; decide +kernel
+
+/-- **Round trip at the current tree**: every well-typed definitions tree over the schema of the
+current /repo, of any size and depth, with any trimming function, is returned by
+`parse ∘ marshal` up to text trimming and the olive `Item` defaults. -/
+theorem current_roundtrip (tr : String → String) (n : Node) (hwt : WellTyped T n) (hroot : n.ty = T.rootTy) :
+    parse T (marshal T tr n) = some (normRoot T tr n) :=
+  roundtrip_general T current_rt_table tr n hwt hroot
+
 /-- the generated `FindBy` methods visit every embedded struct and every element field that can
 hold an id-carrying element (`BaseElementInterface`) -/
 theorem current_findBy_covers : findByCoversB T = true := by decide +kernel
@@ -44,6 +56,9 @@ theorem current_xsi_dichotomy :
   first
     | exact Or.inl ⟨by decide, by unfold XsiDeclared; decide +kernel, by rfl⟩
     | exact Or.inr ⟨by decide, by unfold XsiDeclared; decide +kernel, by rfl⟩
+
+/-- the whole statement at the current tree -/
+theorem current_C15 : C15_statement T := C15_holds T current_rt_table current_findBy_covers
 
 /-- informal conditions round-trip on the current table whatever `xsiDeclared` is -/
 theorem current_informal_roundtrip :
